@@ -62,6 +62,12 @@ LIMIT = 1.0e6
 # explicit generator calls with non-default arguments: what they cache has no fresh-object reference, so the
 # groups they fill are excluded from the twin comparison until the next value change, but stay under the
 # non-interference invariant (operations on other objects must not change them)
+REJECTED_KW = {"gen_fa_spectrum": [{"n": -64}, {"n": 0}, {"n": 512.0}, {"p2_plus": -40}, {"n": "64"}, {"p2_plus": 0.5}],
+               "gen_smooth_fa_spectrum": [{"band": None}, {"band": "40"}],
+               "generate_smooth_fa_spectrum": [{"band": None}],
+               "gen_response_spectrum": [{"xi": "x"}, {"min_dt_ratio": 0}, {"xi": None}],
+               "generate_response_spectrum": [{"min_dt_ratio": 0}, {"xi": [0.05, 0.1]}],
+               "generate_displacement_and_velocity_series": [{"trap": True, "nonsense": 1}]}
 CUSTOM_KW = {"gen_fa_spectrum": [{"p2_plus": 1}, {"n": 256}, {"p2_plus": 2}],
              "gen_smooth_fa_spectrum": [{"band": 20}], "generate_smooth_fa_spectrum": [{"band": 60}],
              "gen_response_spectrum": [{"xi": 0.1}, {"min_dt_ratio": 8}, {"xi": 0.0}],
@@ -459,7 +465,9 @@ class C04(Profile):
                 world.warm[op["p"]].update(GROUP_OF.get(op["x"], ()))
             return
         if k == "regen":
-            if op.get("kw"):
+            if op.get("kw") and (out.ok or fkind == "K2"):
+                # (a call with non-default arguments that is *rejected* -- raises without any injected failure -- must
+                #  leave the object as it was, so it creates no exemption; the unchanged code satisfies that)
                 g = set(REGEN_FILLS.get(op["m"], ()))
                 if op["m"] in ("gen_smooth_fa_spectrum", "generate_smooth_fa_spectrum"):
                     g = {"smooth"}
@@ -803,6 +811,7 @@ class OpGen(object):
         self.emitted = 0
         self.mut_off = set(config.get("mut_off", []))
         self._world = None
+        self.ranges = {}       # party -> the (limits, count) of the last range-type smoothing setting (constructor included)
 
     # -- entry point -------------------------------------------------------------------------------
     def __call__(self, world, step):
@@ -961,11 +970,16 @@ class OpGen(object):
         if like is not None and self._world is not None and like in self._world.objs:
             n, dt = len(self._world.objs[like].values), float(self._world.objs[like].dt)
         op = {"op": "new", "p": name, "cls": cls, "values": self._values(n), "dt": dt or self._dt(), "kw": {}}
+        self.ranges[name] = ((0.1, 30), 50)
         if not self.cfg["default_settings"] or rng.random() < 0.5:
-            if rng.random() < 0.8:
+            c = rng.random()
+            if c < 0.6:
                 op["kw"]["smooth_fa_freqs"] = nd(gen_freqs(rng))
-            else:
-                op["kw"]["smooth_freq_range"] = {"tu": [round(rng.uniform(0.05, 1.0), 3), round(rng.uniform(5, 40), 2)]}
+                self.ranges.pop(name, None)
+            elif c < 0.8:
+                lo, hi = round(rng.uniform(0.05, 1.0), 3), round(rng.uniform(5, 40), 2)
+                op["kw"]["smooth_freq_range"] = {"tu": [lo, hi]}
+                self.ranges[name] = ((lo, hi), 50)
             if cls == "AccSignal":
                 if rng.random() < 0.85:
                     op["kw"]["response_times"] = nd(gen_periods(rng, allow_zero=True))
@@ -1031,8 +1045,14 @@ class OpGen(object):
         if r < 0.84:
             ms = REGEN_ACC if _cls_name(obj) == "AccSignal" else REGEN_SIG
             op = {"op": "regen", "p": p, "m": rng.choice(ms)}
-            if rng.random() < 0.3 and op["m"] in CUSTOM_KW:
+            c = rng.random()
+            if c < 0.3 and op["m"] in CUSTOM_KW:
                 op["kw"] = dict(rng.choice(CUSTOM_KW[op["m"]]))
+                op["no_fault"] = True
+            elif c < 0.42 and op["m"] in REJECTED_KW:
+                op["kw"] = dict(rng.choice(REJECTED_KW[op["m"]]))     # K1: rejected for its arguments
+                op["k1"] = True
+                op["no_fault"] = True
             return op
         if r < 0.93 or not world.clusters:
             fs = IREAD_ACC if _cls_name(obj) == "AccSignal" else IREAD_SIG
@@ -1119,12 +1139,17 @@ class OpGen(object):
             op["a"] = [self._values()]
         elif base == "add_constant":
             op["a"] = [round(rng.choice([-1, 1]) * amp * rng.uniform(0.2, 2.0), 4)]
+            if rng.random() < 0.2:      # a change that is small next to the record (a 'nothing changed' test must be exact)
+                op["a"] = [float(rng.choice([-1, 1]) * amp * rng.choice([1e-6, 1e-8, 1e-10, 1e-4]))]
         elif base == "add_series":
             ln = n
             if k1:
                 ln = max(0, n + rng.choice([-2, -1, 1, 3]))
                 op["k1"] = True
             ser = gen_record(rng, ln, amp=amp)
+            if rng.random() < 0.15:
+                f = rng.choice([1e-6, 1e-8, 1e-10])
+                ser = [v * f for v in ser]
             op["a"] = [ser if rng.random() < 0.3 else nd(ser)]
         elif base == "add_signal":
             others = [q for q in sorted(world.objs) if q != p]
@@ -1206,17 +1231,35 @@ class OpGen(object):
         op = {"op": "set", "p": p, "how": how}
         if how in ("attr:smooth_fa_freqs", "attr:smooth_fa_frequencies"):
             f = gen_freqs(rng)
+            if rng.random() < 0.3:
+                k = len(obj.smooth_fa_freqs)      # a custom grid with as many points as the current one
+                if 2 <= k <= 60:
+                    f = sorted(set(round(rng.uniform(0.2, 40.0), 4) for _ in range(k * 2)))[:k]
+                    if len(f) < k:
+                        f = gen_freqs(rng)
             c = rng.random()
             op["v"] = f if c < 0.25 else ({"tu": f} if c < 0.35 else nd(f))
         elif how == "gen_smooth":
             op["v"] = nd(gen_freqs(rng))   # ndarray only: this entry point does not coerce its argument
         elif how == "by_range":
             lo, hi = round(rng.uniform(0.05, 1.0), 3), round(rng.uniform(5, 40), 2)
-            op["v"] = {"tu": [{"tu": [lo, hi]} if rng.random() < 0.6 else [lo, hi], rng.randint(2, 60)]}
+            npt = rng.randint(2, 60)
+            mem = self.ranges.get(p)
+            c = rng.random()
+            if mem and c < 0.4:
+                (lo, hi), npt = mem                 # exactly the range setting that was applied before (or the constructor's)
+            elif c < 0.55:
+                npt = len(obj.smooth_fa_freqs)      # a new range with the current number of points
+            op["v"] = {"tu": [{"tu": [lo, hi]} if rng.random() < 0.6 else [lo, hi], npt]}
+            self.ranges[p] = ((lo, hi), npt)
         elif how == "attr:smooth_freq_range":
-            op["v"] = {"tu": [round(rng.uniform(0.05, 1.0), 3), round(rng.uniform(5, 40), 2)]}
+            mem = self.ranges.get(p)
+            if mem and rng.random() < 0.4:
+                op["v"] = {"tu": list(mem[0])}
+            else:
+                op["v"] = {"tu": [round(rng.uniform(0.05, 1.0), 3), round(rng.uniform(5, 40), 2)]}
         elif how == "attr:smooth_freq_points":
-            op["v"] = rng.randint(2, 60)
+            op["v"] = len(obj.smooth_fa_freqs) if rng.random() < 0.35 else rng.randint(2, 60)
         else:
             t = gen_periods(rng, allow_zero=(how != "resp_series"))
             c = rng.random()
@@ -1243,6 +1286,27 @@ class OpGen(object):
                     if rng.random() < 0.6:
                         op["reuse"] = True
                         op["no_fault"] = True
+        # a grid with the same count and exactly the same end points as the grid that this object -- or another object of
+        # the world -- currently has, but another interior (anything keyed by count and end points confuses the two)
+        if how in ("attr:smooth_fa_freqs", "attr:smooth_fa_frequencies", "gen_smooth") + tuple(SET_RESP) and \
+                not op.get("reuse") and rng.random() < 0.25:
+            donors = sorted(world.objs)
+            q = rng.choice(donors)
+            src = capture(lambda: [float(x) for x in (world.objs[q].response_times if how in SET_RESP else world.objs[q].smooth_fa_freqs)])
+            if src.ok and len(src.value) >= 3 and len(src.value) <= 60:
+                cur = src.value
+                lo, hi = cur[0], cur[-1]
+                k = len(cur)
+                form = rng.choice(["lin", "log", "rnd"])
+                if form == "lin":
+                    inner = [lo + (hi - lo) * (i + 1) / (k - 1) for i in range(k - 2)]
+                elif form == "log" and lo > 0 and hi > 0:
+                    inner = [lo * (hi / lo) ** ((i + 1) / (k - 1)) for i in range(k - 2)]
+                else:
+                    inner = sorted(rng.uniform(min(lo, hi), max(lo, hi)) for _ in range(k - 2))
+                new = [lo] + [float(x) for x in inner] + [hi]
+                if len(set(new)) == len(new) and new != cur and all(np.isfinite(new)):
+                    op["v"] = nd(new)
         # K3: under strict floating point, settings that make a *real* FloatingPointError arise inside the computation
         # that follows the change: a smoothing frequency exactly on an FFT bin (0/0 in the Konno-Ohmachi window), a zero
         # response period that is not the first one (division by zero in the oscillator frequencies)
@@ -1287,9 +1351,20 @@ class OpGen(object):
         if m == "same_start":
             if rng.random() < 0.6:
                 op["kw"] = {"start": 0, "end": round(dt * rng.randint(2, 12), 6)}
+            if rng.random() < 0.15:
+                op["kw"]["base"] = rng.choice([0, 1])
+            if rng.random() < 0.1:
+                op["kw"]["start"] = round(dt * rng.randint(0, 3), 6)
         elif m == "time_match":
             if rng.random() < 0.5:
                 op["kw"] = {"steps": rng.randint(2, 10)}
+            c = rng.random()
+            if c < 0.15:
+                op["kw"]["set_step"] = rng.choice([1, 2, -1, 3, True])   # an option that exists in the signature
+            elif c < 0.25:
+                op["kw"]["trim"] = rng.choice([True, False])
+            elif c < 0.3:
+                op["kw"]["verbose"] = 0
         else:
             nyq = 0.5 / dt
             op["a"] = [round(nyq * rng.uniform(0.05, 0.6), 4)]
@@ -1297,6 +1372,8 @@ class OpGen(object):
                 op["kw"] = {"low_index": 1, "high_index": 2}
             if rng.random() < 0.3:
                 op["kw"]["remove_gibbs"] = rng.choice(["start", "end", None])
+            if rng.random() < 0.2:
+                op["kw"]["order"] = rng.choice([1, 2, 4])
         return op
 
 
